@@ -1,4 +1,5 @@
 import Pms.Props.C06
+import Pms.Props.C06Mod
 
 #print axioms Pms.Dyn.C06_reindex
 #print axioms Pms.Dyn.C06_overlap_mode
@@ -12,3 +13,4 @@ import Pms.Props.C06
 #print axioms Pms.Dyn.C06_sq4
 #print axioms Pms.Dyn.C06_sq4_lag
 #print axioms Pms.Dyn.C06_source_shape
+#print axioms Pms.ModShape.C06_module_shape
